@@ -40,6 +40,7 @@ OPS = {
 }
 PRIMARY = {'gen': 'ok', 'coro': 'int', 'agen': 'ok'}
 SPEC_NOTE = {'plain': '', 'chk': ' (specification: its returned value goes through the return check)',
+             'never': ' (specification: annotated NoReturn - the body is awaited, then any returned value is a violation)',
              'viol': ' (specification: the produced object fails the return hint -> violation when started)'}
 KNOWN_KEYS = {
     'gen': 'C08:gen:explicit-throw(GeneratorExit):body-swallows-it-and-returns:StopIteration->GeneratorExit',
